@@ -106,7 +106,10 @@ def order(ctx, rule="C13.set-order"):
     ctx.ob(rule, f.site, ok, "" if ok else "measured_modes is returned in hash order of the underlying set", role="sorted", line=f.node.lineno)
     e = ctx.tree.func("engine.py", "LocalEngine._run_program")
     calls = [n for n in walk_no_nested(e.node) if isinstance(n, ast.Call) and dotted(n.func) == "reshape_samples"]
-    ctx.require(calls, "LocalEngine._run_program no longer calls reshape_samples")
+    if not calls:
+        ctx.ob(rule, e.site, False, "LocalEngine._run_program no longer hands the samples of a time-domain program to reshape_samples: "
+               "entry (shot, spatial mode, time bin) is not the outcome of that pulse", role="reshape-call", line=e.node.lineno)
+        return
     callee = ctx.tree.func(T, "reshape_samples")
     want = {"modes": "measured_modes", "N": "N", "timebins": "timebins"}
     c = calls[0]
